@@ -820,8 +820,11 @@ def rule_sibling(F, ev, R, config, rule="R-SIBLING"):
             continue
         bs, bp = seq[m], par[m]
         if m == "set_params":
-            ws = [(k, canon(v)) for (_, _, k, v, _) in rules_err.cache_writes(F, ev, bs, pr)]
-            wp = [(k, canon(v)) for (_, _, k, v, _) in rules_err.cache_writes(F, ev, bp, pr)]
+            # values only: the conditions under which each flavour stores them are path conditions in one form and
+            # presence conditions in another; they are decided per flavour by R-SVD-FINITE / R-ERR-DISCIPLINE / R-NO-HISTORY
+            val = lambda v: canon(v[1]) if v is not None and v[0] == "opt" else canon(v)
+            ws = [(k, val(v)) for (_, _, k, v, _) in rules_err.cache_writes(F, ev, bs, pr)]
+            wp = [(k, val(v)) for (_, _, k, v, _) in rules_err.cache_writes(F, ev, bp, pr)]
             ok = set(map(repr, ws)) == set(map(repr, wp))
             R.add(rule, config, bp.key, "set_params-sinks-equal", ok,
                   "" if ok else "the cache values written by the parallel set_params differ from the sequential ones", bp.j["span"])
